@@ -79,8 +79,8 @@ class no_cache(object):
        #if maxsize is not 0: raise ValueError('maxsize cannot be set')
         maxsize = 0 #XXX: allow maxsize to be given but ignored ?
         purge = True #XXX: allow purge to be given but ignored ?
-        if cache is None: cache = archive_dict()
-        elif type(cache) is dict: cache = archive_dict(cache)
+        # cache=None: every decorated function gets its own archive_dict (see __call__)
+        if type(cache) is dict: cache = archive_dict(cache)
 
         if keymap is None: keymap = hashmap(flat=True)
         if ignore is None: ignore = tuple()
@@ -114,6 +114,7 @@ class no_cache(object):
        #lock = RLock()                  # linkedlist updates aren't threadsafe
         maxsize = self.__state__['maxsize']
         cache = self.__state__['cache']
+        if cache is None: cache = archive_dict() # not shared between functions
         keymap = self.__state__['keymap']
         ignore = self.__state__['ignore']
         rounded_args = self.__state__['roundargs']
@@ -261,8 +262,8 @@ class inf_cache(object):
        #if maxsize is not None: raise ValueError('maxsize cannot be set')
         maxsize = None #XXX: allow maxsize to be given but ignored ?
         purge = False #XXX: allow purge to be given but ignored ?
-        if cache is None: cache = archive_dict()
-        elif type(cache) is dict: cache = archive_dict(cache)
+        # cache=None: every decorated function gets its own archive_dict (see __call__)
+        if type(cache) is dict: cache = archive_dict(cache)
 
         if keymap is None: keymap = hashmap(flat=True)
         if ignore is None: ignore = tuple()
@@ -296,6 +297,7 @@ class inf_cache(object):
        #lock = RLock()                  # linkedlist updates aren't threadsafe
         maxsize = self.__state__['maxsize']
         cache = self.__state__['cache']
+        if cache is None: cache = archive_dict() # not shared between functions
         keymap = self.__state__['keymap']
         ignore = self.__state__['ignore']
         rounded_args = self.__state__['roundargs']
@@ -455,8 +457,8 @@ class lfu_cache(object):
     def __init__(self, maxsize=100, cache=None, keymap=None, ignore=None, tol=None, deep=False, purge=False):
         if maxsize is None or maxsize == 0:
             return
-        if cache is None: cache = archive_dict()
-        elif type(cache) is dict: cache = archive_dict(cache)
+        # cache=None: every decorated function gets its own archive_dict (see __call__)
+        if type(cache) is dict: cache = archive_dict(cache)
 
         if keymap is None: keymap = hashmap(flat=True)
         if ignore is None: ignore = tuple()
@@ -493,6 +495,7 @@ class lfu_cache(object):
        #lock = RLock()                  # linkedlist updates aren't threadsafe
         maxsize = self.__state__['maxsize']
         cache = self.__state__['cache']
+        if cache is None: cache = archive_dict() # not shared between functions
         keymap = self.__state__['keymap']
         ignore = self.__state__['ignore']
         rounded_args = self.__state__['roundargs']
@@ -675,8 +678,8 @@ class lru_cache(object):
     def __init__(self, maxsize=100, cache=None, keymap=None, ignore=None, tol=None, deep=False, purge=False):
         if maxsize is None or maxsize == 0:
             return
-        if cache is None: cache = archive_dict()
-        elif type(cache) is dict: cache = archive_dict(cache)
+        # cache=None: every decorated function gets its own archive_dict (see __call__)
+        if type(cache) is dict: cache = archive_dict(cache)
 
         if keymap is None: keymap = hashmap(flat=True)
         if ignore is None: ignore = tuple()
@@ -715,6 +718,7 @@ class lru_cache(object):
        #lock = RLock()                  # linkedlist updates aren't threadsafe
         maxsize = self.__state__['maxsize']
         cache = self.__state__['cache']
+        if cache is None: cache = archive_dict() # not shared between functions
         keymap = self.__state__['keymap']
         ignore = self.__state__['ignore']
         rounded_args = self.__state__['roundargs']
@@ -922,8 +926,8 @@ class mru_cache(object):
     def __init__(self, maxsize=100, cache=None, keymap=None, ignore=None, tol=None, deep=False, purge=False):
         if maxsize is None or maxsize == 0:
             return
-        if cache is None: cache = archive_dict()
-        elif type(cache) is dict: cache = archive_dict(cache)
+        # cache=None: every decorated function gets its own archive_dict (see __call__)
+        if type(cache) is dict: cache = archive_dict(cache)
 
         if keymap is None: keymap = hashmap(flat=True)
         if ignore is None: ignore = tuple()
@@ -959,6 +963,7 @@ class mru_cache(object):
        #lock = RLock()                  # linkedlist updates aren't threadsafe
         maxsize = self.__state__['maxsize']
         cache = self.__state__['cache']
+        if cache is None: cache = archive_dict() # not shared between functions
         keymap = self.__state__['keymap']
         ignore = self.__state__['ignore']
         rounded_args = self.__state__['roundargs']
@@ -1146,8 +1151,8 @@ class rr_cache(object):
     def __init__(self, maxsize=100, cache=None, keymap=None, ignore=None, tol=None, deep=False, purge=False):
         if maxsize is None or maxsize == 0:
             return
-        if cache is None: cache = archive_dict()
-        elif type(cache) is dict: cache = archive_dict(cache)
+        # cache=None: every decorated function gets its own archive_dict (see __call__)
+        if type(cache) is dict: cache = archive_dict(cache)
 
         if keymap is None: keymap = hashmap(flat=True)
         if ignore is None: ignore = tuple()
@@ -1181,6 +1186,7 @@ class rr_cache(object):
        #lock = RLock()                  # linkedlist updates aren't threadsafe
         maxsize = self.__state__['maxsize']
         cache = self.__state__['cache']
+        if cache is None: cache = archive_dict() # not shared between functions
         keymap = self.__state__['keymap']
         ignore = self.__state__['ignore']
         rounded_args = self.__state__['roundargs']
